@@ -4,6 +4,12 @@ Observed at pydrobert.torch.functional.pad_variable / chunk_by_slices / pad_mask
 and pydrobert.torch.modules.RandomShift (plus the module forms PadVariable, ChunkBySlices,
 PadMaskedSequence as a second entry point).  The oracle (vf/oracles/c09_pad.py) handles one
 sequence at a time with numpy.pad and Python slicing.
+
+Besides the values, the generators vary what must not matter (vf/padlay.py): the memory layout of
+every tensor argument, garbage (NaN, +-inf, huge values) in the region behind each sequence's length
+resp. at masked-out positions, the data dtype, repeated use of the same tensors / module object, and
+- in the `*_large` sub-checks - sizes that cross 16 / 32 / 64 / 128 / 256 / 1024 / 2049 along the
+sequence, batch and feature dimensions, with the per-row values expanded from a few generated integers.
 """
 from __future__ import annotations
 
@@ -15,8 +21,17 @@ from hypothesis import strategies as st
 from ..core import Info, Violation, expect_raises, require, subcheck
 from ..oracles import c09_pad as O
 from .. import fakes
+from .. import padlay as L
 
 MODES = ["constant", "reflect", "replicate"]
+DTYPES = ["float32", "float32", "int64", "float64", "int32"]
+# memory layouts (vf/padlay.py) offered for x (N, T, *), for 1-D length vectors and for the 2-D index / mask argument
+X_LAYS = ["contiguous", "offset", "inner", "strided", "transposed", "last_strided", "expanded"]
+V_LAYS = ["contiguous", "offset", "strided", "expanded"]
+A_LAYS = ["contiguous", "offset", "inner", "strided", "transposed", "last_strided"]
+GARBAGE = ["none", "none"] + L.GARBAGE
+PATTERNS = [None, None, None, "twice", "reuse"]
+BIG_BASE = 2 ** 40 + 3  # int64 data far outside what int32 / float32 can hold exactly
 
 
 def _lib():
@@ -26,16 +41,112 @@ def _lib():
     return F, M
 
 
-def _tensors(case):
+def _tensors(case, lens=None):
+    """(x_np, x, classes): x_np is the clean array the oracle reads (only x_np[n, :len]); x is the tensor handed
+    to the library: the same values, garbage written behind every sequence's length when the case asks for it
+    (the documents: 'only the values in the range x[n, :lens[n]] are considered part of the sequence'), in the
+    memory layout the case asks for."""
     import torch
 
-    x_np = O.make_x(case["N"], case["T"], case["trail"], case.get("base", 1), case["dtype"])
+    N, T = case["N"], case["T"]
+    if case.get("rows_equal"):
+        x_np = np.repeat(O.make_x(1, T, case["trail"], case.get("base", 1), case["dtype"]), N, axis=0)
+    else:
+        x_np = O.make_x(N, T, case["trail"], case.get("base", 1), case["dtype"])
     x = torch.from_numpy(x_np.copy())
-    return x_np, x
+    classes = []
+    kind = case.get("garbage")
+    if lens is not None and L.fill_beyond(x, lens, kind, case["dtype"]):
+        classes += ["garbage_beyond_len", "garbage_" + kind]
+    lay = (case.get("lay") or {}).get("x")
+    x = L.lay(x, lay)
+    c = L.layout_class("x", x, lay)
+    if c:
+        classes.append(c)
+    return x_np, x, classes
+
+
+def _index_tensor(values, shape, case, role, classes):
+    """A long tensor of the given shape in the layout the case asks for under `role` ('lens' or 'aux')."""
+    import torch
+
+    lay = (case.get("lay") or {}).get(role)
+    t = L.lay(torch.tensor(values, dtype=torch.long).view(shape), lay)
+    c = L.layout_class(role, t, lay)
+    if c:
+        classes.append(c)
+    return t
 
 
 def _eq(a, b):
     return a.shape == b.shape and bool(np.array_equal(a, b))
+
+
+def _show(a, ref=None):
+    """Arrays in violation reports: long ones are cut down to the neighbourhood of the first difference."""
+    a = np.asarray(a)
+    if a.size <= 96:
+        return a
+    k = 0
+    if ref is not None:
+        ref = np.asarray(ref)
+        m = min(a.shape[0], ref.shape[0])
+        neq = [i for i in range(m) if not np.array_equal(a[i], ref[i])]
+        k = neq[0] if neq else m
+    lo = max(k - 2, 0)
+    return {"shape": list(a.shape), "first_difference_at": k, "from": lo, "values": a[lo:lo + 6]}
+
+
+def _same(a, b):
+    """Tensor equality with NaN == NaN (evaluation mode hands back tensors that may hold garbage)."""
+    if tuple(a.shape) != tuple(b.shape) or a.dtype != b.dtype:
+        return False
+    return bool(np.array_equal(a.numpy(), b.numpy(), equal_nan=bool(a.is_floating_point())))
+
+
+def _val(case):
+    return float(case["value"])  # "-inf" is stored as a string (JSON)
+
+
+class _Drawn:
+    """Integer source backed by Hypothesis."""
+
+    def __init__(self, draw):
+        self.draw = draw
+
+    def __call__(self, lo, hi):
+        return self.draw(st.integers(lo, hi))
+
+    def choice(self, seq):
+        return self.draw(st.sampled_from(seq))
+
+
+class _Det:
+    """Integer source that is a pure function of (seed, idx, call number): expands a few generated integers."""
+
+    def __init__(self, seed, *idx):
+        self.seed, self.idx, self.k = seed, tuple(idx), 0
+
+    def __call__(self, lo, hi):
+        self.k += 1
+        return L.pick(lo, hi, self.seed, *(self.idx + (self.k,)))
+
+    def choice(self, seq):
+        return seq[self(0, len(seq) - 1)]
+
+
+def _prod(xs):
+    n = 1
+    for v in xs:
+        n *= v
+    return n
+
+
+def _size_classes(case):
+    out = L.size_classes(T=case["T"], N=case["N"], F=_prod(case["trail"]))
+    if abs(case.get("base", 1)) >= BIG_BASE:
+        out.append("int64_beyond_2p40")
+    return out
 
 
 def _lens_classes(lens, T):
@@ -49,7 +160,28 @@ def _lens_classes(lens, T):
     return out
 
 
+def _rows_to_check(N):
+    """All rows; for very wide batches the first 300, the last 300 and every 7th in between (stated in the doc)."""
+    if N <= 700:
+        return range(N)
+    return sorted(set(range(300)) | set(range(N - 300, N)) | set(range(300, N - 300, 7)))
+
+
 # ------------------------------------------------------------------ shared strategies
+
+
+@st.composite
+def _extras(draw, aux_lays=A_LAYS):
+    """What must not matter: memory layouts, garbage behind the lengths, repeated use.  One case in four is plain."""
+    if draw(st.sampled_from([True, False, False, False])):
+        return {}
+    lay = {"x": draw(st.sampled_from(X_LAYS)), "lens": draw(st.sampled_from(V_LAYS)), "aux": draw(st.sampled_from(aux_lays))}
+    out = {"lay": lay, "garbage": draw(st.sampled_from(GARBAGE)), "pattern": draw(st.sampled_from(PATTERNS))}
+    if lay["x"] == "expanded":
+        # stride 0 along the batch dimension: every row holds the same data (what the chunk command passes)
+        out["rows_equal"] = True
+        out["garbage"] = "none"
+    return out
 
 
 @st.composite
@@ -58,7 +190,7 @@ def _batch(draw, tier, min_len=0):
     N = draw(st.integers(1, 4 if not big else 6))
     T = draw(st.one_of(st.integers(1, 4), st.integers(1, 8 if not big else 14)))
     trail = draw(st.lists(st.integers(1, 3), min_size=0, max_size=2))
-    dtype = draw(st.sampled_from(["float32", "float32", "int64"]))
+    dtype = draw(st.sampled_from(DTYPES))
     kind = draw(st.sampled_from(["any", "any", "extremes", "full"]))
     if kind == "full":
         lens = [T] * N
@@ -67,16 +199,86 @@ def _batch(draw, tier, min_len=0):
     else:
         lens = [draw(st.integers(min_len, T)) for _ in range(N)]
     return {"N": N, "T": T, "trail": trail, "dtype": dtype, "lens": lens,
-            "base": draw(st.sampled_from([1, 1, 100, -7]))}
+            "base": draw(st.sampled_from([1, 1, 100, -7] + ([BIG_BASE, -BIG_BASE] if dtype == "int64" else [])))}
 
 
 def _value(draw, dtype):
-    if dtype == "int64":
+    if dtype.startswith("int"):
         return draw(st.sampled_from([0, -1, 7]))
-    return draw(st.sampled_from([0, -1, 7, 0.5, -2.5]))
+    return draw(st.sampled_from([0, -1, 7, 0.5, -2.5, "-inf"]))
+
+
+def _det_value(src, dtype):
+    return src.choice([0, -1, 7] if dtype.startswith("int") else [0, -1, 7, 0.5, -2.5, "-inf"])
+
+
+def _expand_dims(c):
+    """(N, T, trail) of a `*_large` case: the dimension named by c['dim'] has the threshold size c['size']."""
+    a, b = c["small"]
+    if c["dim"] == "T":
+        return 1 + a % 3, c["size"], ([] if b % 2 else [2])
+    if c["dim"] == "N":
+        return c["size"], 1 + a % 6, ([] if b % 3 else [2])
+    return 1 + a % 2, 1 + b % 4, [c["size"]]
+
+
+def _expand_lens(kind, N, T, min_len, seed):
+    if kind == "full":
+        return [T] * N
+    if kind == "extremes":
+        opts = [min_len, max(min_len, 1), T, max(T - 1, min_len)]
+        return [opts[L.pick(0, 3, seed, 1, n)] for n in range(N)]
+    if kind == "near_full":
+        return [max(min_len, T - L.pick(0, 2, seed, 1, n)) for n in range(N)]
+    return [L.pick(min_len, T, seed, 1, n) for n in range(N)]
+
+
+def _spike_row(which, N):
+    """Position of the one row that exceeds all others: last, middle, first, 1024 (the first row of a second block), 16."""
+    return [N - 1, N // 2, 0, min(N - 1, 1024), min(N - 1, 16)][which]
+
+
+def _groups(tier):
+    return L.GROUPS + ([4096] if tier == "thorough" else [])
+
+
+def _with_dim_size(c, tier, dims=("T", "N", "F")):
+    c["dim"], c["size"] = L.dim_size_from(c, dims, _groups(tier))
+    return c
+
+
+@st.composite
+def _large_common(draw, tier):
+    """The fields every `*_large` case has; the large dimension and its size are added last (_with_dim_size)."""
+    lay = {"x": draw(st.sampled_from(X_LAYS[:-1])), "lens": draw(st.sampled_from(V_LAYS[:-1])),
+           "aux": draw(st.sampled_from(A_LAYS))}
+    return {"small": [draw(st.integers(0, 11)), draw(st.integers(0, 11))],
+            "seed": draw(st.integers(0, 10 ** 6)), "dtype": draw(st.sampled_from(DTYPES)),
+            "lens_kind": draw(st.sampled_from(["any", "any", "full", "extremes", "near_full"])),
+            "lay": lay if draw(st.booleans()) else None, "garbage": draw(st.sampled_from(GARBAGE)),
+            "base": draw(st.sampled_from([1, 100, -7]))}
 
 
 # ------------------------------------------------------------------ pad_variable
+
+
+def _pad_amount(src, kind, mode, length, T, allow_thresh):
+    if kind == "mixed":
+        kind = src.choice(["small", "upto_T", "beyond_T", "thresh"])
+    if mode == "reflect":
+        hi = max(length - 1, 0)
+        if kind == "small":
+            return min(src(0, 2), hi)
+        if kind in ("beyond_T", "thresh"):
+            return hi - src(0, min(1, hi))  # the largest legal amounts
+        return src(0, hi)
+    if kind == "small":
+        return src(0, 2)
+    if kind == "upto_T":
+        return src(0, T)
+    if kind == "thresh" and allow_thresh:
+        return src.choice(L.THRESH) + src(-1, 1) * src(0, 1)
+    return src(T + 1, 2 * T + 3)
 
 
 @st.composite
@@ -98,6 +300,11 @@ def _pad_variable_cases(draw, tier):
         n = draw(st.integers(0, N - 1))
         pad[draw(st.integers(0, 1))][n] = lens[n] + draw(st.integers(0, 2))
     b.update(mode=mode, pad=pad, value=_value(draw, b["dtype"]), entry=draw(st.sampled_from(["fn", "module"])))
+    b.update(draw(_extras()))
+    if mode != "reflect" and not illegal and draw(st.sampled_from([True] + [False] * 7)):
+        # the same storage in two roles: lens is a view of pad[0] (left pad == length, legal outside reflect)
+        b["pad"][0] = list(lens)
+        b["alias"] = True
     return b
 
 
@@ -106,50 +313,81 @@ def _pad_variable_strategy(tier):
 
 
 def _call_pad_variable(case, x, lens, pad):
+    """The outputs to judge (each must satisfy the property): one call; with pattern 'twice' a second call with
+    the very same tensor objects; with pattern 'reuse' the same module object (or function) is first used on
+    another legal batch (the rows in reverse order)."""
     F, M = _lib()
+    pattern = case.get("pattern")
     if case.get("entry") == "module":
-        return M.PadVariable(case["mode"], float(case["value"]))(x, lens, pad)
-    return F.pad_variable(x, lens, pad, case["mode"], float(case["value"]))
+        m = M.PadVariable(case["mode"], _val(case))
+        call = lambda a, b, c: m(a, b, c)  # noqa: E731
+    else:
+        call = lambda a, b, c: F.pad_variable(a, b, c, case["mode"], _val(case))  # noqa: E731
+    if pattern == "reuse":
+        call(x.flip(0), lens.flip(0), pad.flip(1))
+    outs = [call(x, lens, pad)]
+    if pattern == "twice":
+        outs.append(call(x, lens, pad))
+    return outs
 
 
 def _pad_variable_check(case):
-    import torch
-
-    x_np, x = _tensors(case)
-    N, T, mode, value = case["N"], case["T"], case["mode"], case["value"]
+    N, T, mode, value = case["N"], case["T"], case["mode"], _val(case)
     lens, pad = case["lens"], case["pad"]
-    lens_t = torch.tensor(lens, dtype=torch.long)
-    pad_t = torch.tensor(pad, dtype=torch.long)
-    classes = ["mode_" + mode, "dtype_" + case["dtype"]] + _lens_classes(lens, T)
+    x_np, x, classes = _tensors(case, lens)
+    pad_t = _index_tensor(pad, (2, N), case, "aux", classes)
+    if case.get("alias"):
+        lens_t = pad_t[0]
+        classes.append("lens_is_view_of_pad")
+    else:
+        lens_t = _index_tensor(lens, (N,), case, "lens", classes)
+    classes += ["mode_" + mode, "dtype_" + case["dtype"]] + _lens_classes(lens, T) + _size_classes(case)
     legal = all(O.pad_legal(mode, lens[n], pad[0][n], pad[1][n]) for n in range(N))
     if not legal:
         exc = NotImplementedError if mode == "reflect" else RuntimeError
         with expect_raises(exc, what="%s padding outside its documented domain (lens=%s pad=%s)" % (mode, lens, pad)):
-            _call_pad_variable(case, x, lens_t, pad_t)
+            _call_pad_variable(dict(case, pattern=None), x, lens_t, pad_t)
         return Info(False, classes + ["documented_exception"])
-    out = _call_pad_variable(case, x, lens_t, pad_t)
+    outs = _call_pad_variable(case, x, lens_t, pad_t)
+    if case.get("pattern"):
+        classes.append("pattern_" + case["pattern"])
     new_lens = [lens[n] + pad[0][n] + pad[1][n] for n in range(N)]
-    require(out.dtype == x.dtype, "output dtype differs from input dtype", str(out.dtype), str(x.dtype))
-    require(out.shape[0] == N and tuple(out.shape[2:]) == tuple(x.shape[2:]) and out.shape[1] >= max(new_lens),
-            "output shape is not (N, T' >= max(len + pads), *)", list(out.shape), [N, max(new_lens)] + list(x.shape[2:]))
-    out_np = out.numpy()
-    for n in range(N):
-        exp = O.pad_row(x_np[n, :lens[n]], pad[0][n], pad[1][n], mode, value)
-        got = out_np[n, :new_lens[n]]
-        require(_eq(got, exp), "row %d: valid part differs from numpy.pad of the single sequence" % n,
-                {"row": n, "got": got, "len": lens[n], "pad": [pad[0][n], pad[1][n]]}, exp)
+    rows = _rows_to_check(N)
+    expected = {n: O.pad_row(x_np[n, :lens[n]], pad[0][n], pad[1][n], mode, value) for n in rows}
+    for k, out in enumerate(outs):
+        where = "" if k == 0 else " (second call with the same tensors)"
+        require(out.dtype == x.dtype, "output dtype differs from input dtype" + where, str(out.dtype), str(x.dtype))
+        require(out.shape[0] == N and tuple(out.shape[2:]) == tuple(x.shape[2:]) and out.shape[1] >= max(new_lens),
+                "output shape is not (N, T' >= max(len + pads), *)" + where, list(out.shape), [N, max(new_lens)] + list(x.shape[2:]))
+        out_np = out.numpy()
+        for n in rows:
+            got = out_np[n, :new_lens[n]]
+            require(_eq(got, expected[n]), "row %d: valid part differs from numpy.pad of the single sequence%s" % (n, where),
+                    {"row": n, "got": _show(got, expected[n]), "len": lens[n], "pad": [pad[0][n], pad[1][n]]},
+                    _show(expected[n], got))
     big = any(p > T for side in pad for p in side)
     if big:
         classes.append("pad_gt_T")
+    if case.get("spike") is not None:
+        classes.append("one_row_longest")
+    mp = L.thresh_label(max(p for side in pad for p in side))
+    if mp:
+        classes.append("pad_at_" + mp)
     if any(pad[0][n] + pad[1][n] == 0 for n in range(N)):
         classes.append("row_without_pad")
-    return Info(big or "lens_extremes" in classes, classes)
+    return Info(big or "lens_extremes" in classes, sorted(set(classes)))
 
 
 subcheck("C09", "pad_variable", _pad_variable_strategy, 1500, 40000,
          doc="generated (x, lens, pad[2][N], mode, value): every row's valid part == numpy.pad(seq[:len]) "
-             "(constant/reflect/edge); documented NotImplementedError / RuntimeError outside the mode's domain",
-         required_classes=["pad_gt_T", "mode_reflect", "mode_replicate", "lens_extremes", "documented_exception"]
+             "(constant/reflect/edge); documented NotImplementedError / RuntimeError outside the mode's domain; also under "
+             "non-contiguous / offset / expanded layouts of x, lens, pad, garbage behind the lengths, float64 / int32 data, "
+             "a second call with the same tensors, a module object used before, lens a view of pad[0]",
+         required_classes=["pad_gt_T", "mode_reflect", "mode_replicate", "lens_extremes", "documented_exception",
+                           "x_transposed", "x_inner", "x_offset", "x_strided", "x_last_strided", "x_expanded",
+                           "lens_strided", "lens_offset", "aux_transposed", "aux_inner", "garbage_nan", "garbage_inf",
+                           "garbage_huge", "dtype_float64", "dtype_int32", "pattern_twice", "pattern_reuse",
+                           "lens_is_view_of_pad"]
          )(_pad_variable_check)
 
 
@@ -183,7 +421,98 @@ subcheck("C09", "pad_variable_enum", _pad_variable_enum, 0, 0, exhaustive=True,
          required_classes=["pad_gt_T", "documented_exception"])(_pad_variable_check)
 
 
+@st.composite
+def _pad_variable_large_cases(draw, tier):
+    c = draw(_large_common(tier))
+    c.update(mode=draw(st.sampled_from(MODES)), pad_kind=draw(st.sampled_from(["small", "upto_T", "beyond_T", "thresh", "mixed"])),
+             entry=draw(st.sampled_from(["fn", "module"])), pattern=draw(st.sampled_from(PATTERNS)),
+             spike=draw(st.sampled_from([None, None, 0, 1, 2, 3, 4])))
+    return _with_dim_size(c, tier)
+
+
+def _pad_variable_large_expand(c):
+    N, T, trail = _expand_dims(c)
+    mode = c["mode"]
+    lens = _expand_lens(c["lens_kind"], N, T, 0 if mode == "constant" else 1, c["seed"])
+    allow = c["dim"] == "T"  # pads at the thresholds only where the batch and feature dimensions are small
+    pad = [[0] * N, [0] * N]
+    for n in range(N):
+        src = _Det(c["seed"], 2, n)
+        for side in (0, 1):
+            pad[side][n] = _pad_amount(src, c["pad_kind"], mode, lens[n], T, allow)
+    if c.get("spike") is not None:
+        # one row alone needs the longest output: every other row gets small pads
+        k = _spike_row(c["spike"], N)
+        for n in range(N):
+            for side in (0, 1):
+                if n != k:
+                    pad[side][n] = min(pad[side][n], 2, max(lens[n] - 1, 0) if mode == "reflect" else 2)
+        if mode == "reflect":
+            lens[k] = T
+            pad[0][k] = pad[1][k] = T - 1
+        else:
+            pad[0][k], pad[1][k] = T + 2, 2 * T + 3
+    return dict(c, N=N, T=T, trail=trail, lens=lens, pad=pad, value=_det_value(_Det(c["seed"], 3), c["dtype"]))
+
+
+@subcheck("C09", "pad_variable_large", lambda tier: _pad_variable_large_cases(tier), 300, 5000,
+          doc="pad_variable with one of T / N / F at 15..17, 31..33, 63..65, 127..129, 255..257, 1023..1025, 2049 (thorough: "
+              "4095..4097) and pads up to 2T+3 or at the same thresholds; lens and pads are expanded from (seed, row) by a pure "
+              "integer hash; same numpy.pad oracle, every row compared (N > 700: 600 edge rows + every 7th)",
+          required_classes=["T_at_16", "T_at_1024", "T_at_2049", "N_at_16", "N_at_1024", "N_at_2049", "F_at_1024",
+                            "pad_at_1024", "mode_reflect", "mode_replicate", "mode_constant", "one_row_longest"])
+def _pad_variable_large_check(case):
+    return _pad_variable_check(_pad_variable_large_expand(case))
+
+
 # ------------------------------------------------------------------ chunk_by_slices
+
+SLICE_KINDS = ["any", "any", "inside", "left", "right", "right", "right_offset", "empty", "inverted", "cover"]
+
+
+def _slice_for(src, kind, mode, length, T, legal, far=0):
+    """One (start, end) of the requested kind for a sequence of this length (the logic of the first version of
+    the strategy, on an abstract integer source).  `far` widens the range (constant / replicate only)."""
+    if mode == "reflect" and legal:
+        lo, hi = -(length - 1), 2 * length - 1  # reflect needs pads < len
+    else:
+        lo, hi = -T - 3 - far, T + 3 + far
+    lo, hi = min(lo, 0), max(hi, 0)
+    if kind == "right_offset" and hi - length < 2:
+        kind = "right"
+    if kind == "right" and hi - length < 1:
+        kind = "any"
+    if kind == "left" and lo > -1:
+        kind = "any"
+    if kind == "inside":
+        s = src(0, length)
+        e = src(s, length)
+    elif kind == "left":  # wholly inside the left padding, not empty
+        s = src(lo, -1)
+        e = src(s + 1, 0)
+    elif kind == "right":  # wholly inside the right padding, not empty
+        s = src(length, hi - 1)
+        e = src(s + 1, hi)
+    elif kind == "right_offset":  # starts strictly after the first padded element
+        s = src(length + 1, hi - 1)
+        e = src(s + 1, hi)
+    elif kind == "empty":
+        s = e = src(-T - 3, T + 3)
+    elif kind == "inverted":
+        s = src(-T - 3, T + 3)
+        e = src(-T - 3, s)
+    elif kind == "cover":
+        s = src(lo, 0)
+        e = src(min(length, hi), hi)
+    elif kind == "to_end":  # everything from some start to the end of the sequence
+        s = src(lo, length)
+        e = length
+    elif kind == "extreme":  # the widest legal slice
+        s, e = lo, hi
+    else:
+        s = src(lo, hi)
+        e = src(lo, hi)
+    return [s, e]
 
 
 @st.composite
@@ -196,48 +525,17 @@ def _chunk_cases(draw, tier):
     if not give_lens:
         b["lens"] = [T] * N
     lens = b["lens"]
+    alias = give_lens and not illegal and draw(st.sampled_from([True] + [False] * 7))
+    src = _Drawn(draw)
     slices = []
     for n in range(N):
-        L = lens[n]
-        kind = draw(st.sampled_from(["any", "any", "inside", "left", "right", "right", "right_offset", "empty",
-                                     "inverted", "cover"]))
-        if mode == "reflect" and not illegal:
-            lo, hi = -(L - 1), 2 * L - 1  # reflect needs pads < len
-        else:
-            lo, hi = -T - 3, T + 3
-        lo, hi = min(lo, 0), max(hi, 0)
-        if kind == "right_offset" and hi - L < 2:
-            kind = "right"
-        if kind == "right" and hi - L < 1:
-            kind = "any"
-        if kind == "left" and lo > -1:
-            kind = "any"
-        if kind == "inside":
-            s = draw(st.integers(0, L))
-            e = draw(st.integers(s, L))
-        elif kind == "left":  # wholly inside the left padding, not empty
-            s = draw(st.integers(lo, -1))
-            e = draw(st.integers(s + 1, 0))
-        elif kind == "right":  # wholly inside the right padding, not empty
-            s = draw(st.integers(L, hi - 1))
-            e = draw(st.integers(s + 1, hi))
-        elif kind == "right_offset":  # starts strictly after the first padded element
-            s = draw(st.integers(L + 1, hi - 1))
-            e = draw(st.integers(s + 1, hi))
-        elif kind == "empty":
-            s = e = draw(st.integers(-T - 3, T + 3))
-        elif kind == "inverted":
-            s = draw(st.integers(-T - 3, T + 3))
-            e = draw(st.integers(-T - 3, s))
-        elif kind == "cover":
-            s = draw(st.integers(lo, 0))
-            e = draw(st.integers(min(L, hi), hi))
-        else:
-            s = draw(st.integers(lo, hi))
-            e = draw(st.integers(lo, hi))
-        slices.append([s, e])
+        kind = "to_end" if alias else draw(st.sampled_from(SLICE_KINDS))
+        slices.append(_slice_for(src, kind, mode, lens[n], T, not illegal))
     b.update(mode=mode, slices=slices, give_lens=give_lens, value=_value(draw, b["dtype"]),
              entry=draw(st.sampled_from(["fn", "module"])))
+    b.update(draw(_extras()))
+    if alias:
+        b["alias"] = True  # the same storage in two roles: lens is a view of slices[:, 1]
     return b
 
 
@@ -247,22 +545,35 @@ def _chunk_strategy(tier):
 
 def _call_chunk(case, x, slices, lens):
     F, M = _lib()
+    pattern = case.get("pattern")
     if case.get("entry") == "module":
-        return M.ChunkBySlices(case["mode"], float(case["value"]))(x, slices, lens)
-    return F.chunk_by_slices(x, slices, lens, case["mode"], float(case["value"]))
+        m = M.ChunkBySlices(case["mode"], _val(case))
+        call = lambda a, b, c: m(a, b, c)  # noqa: E731
+    else:
+        call = lambda a, b, c: F.chunk_by_slices(a, b, c, case["mode"], _val(case))  # noqa: E731
+    if pattern == "reuse":
+        call(x.flip(0), slices.flip(0), None if lens is None else lens.flip(0))
+    outs = [call(x, slices, lens)]
+    if pattern == "twice":
+        outs.append(call(x, slices, lens))
+    return outs
 
 
 def _chunk_check(case):
-    import torch
-
-    x_np, x = _tensors(case)
-    N, T, mode, value = case["N"], case["T"], case["mode"], case["value"]
+    N, T, mode, value = case["N"], case["T"], case["mode"], _val(case)
     lens, slices = case["lens"], case["slices"]
     if not case["give_lens"]:
         lens = [T] * N  # documented default: every sequence has length T
-    lens_t = torch.tensor(lens, dtype=torch.long) if case["give_lens"] else None
-    slices_t = torch.tensor(slices, dtype=torch.long).view(N, 2)
-    classes = ["mode_" + mode, "dtype_" + case["dtype"]] + _lens_classes(lens, T)
+    x_np, x, classes = _tensors(case, lens)
+    slices_t = _index_tensor(slices, (N, 2), case, "aux", classes)
+    if not case["give_lens"]:
+        lens_t = None
+    elif case.get("alias"):
+        lens_t = slices_t[:, 1]
+        classes.append("lens_is_view_of_slices")
+    else:
+        lens_t = _index_tensor(lens, (N,), case, "lens", classes)
+    classes += ["mode_" + mode, "dtype_" + case["dtype"]] + _lens_classes(lens, T) + _size_classes(case)
     if not case["give_lens"]:
         classes.append("lens_omitted")
     must_raise, may_raise = False, False
@@ -282,29 +593,37 @@ def _chunk_check(case):
     if must_raise:
         with expect_raises(exc, what="%s: slice needs a pad outside the mode's documented domain (lens=%s slices=%s)"
                            % (mode, lens, slices)):
-            _call_chunk(case, x, slices_t, lens_t)
+            _call_chunk(dict(case, pattern=None), x, slices_t, lens_t)
         return Info(False, classes + ["documented_exception"])
     if may_raise:
         try:
-            chunks, chunk_lens = _call_chunk(case, x, slices_t, lens_t)
+            outs = _call_chunk(case, x, slices_t, lens_t)
         except exc:
             return Info(False, classes + ["undetermined_raise"])
     else:
-        chunks, chunk_lens = _call_chunk(case, x, slices_t, lens_t)
+        outs = _call_chunk(case, x, slices_t, lens_t)
+    if case.get("pattern"):
+        classes.append("pattern_" + case["pattern"])
     exp_lens = [max(e - s, 0) for s, e in slices]
-    require(chunk_lens.tolist() == exp_lens, "reported chunk lengths are not max(end - start, 0)",
-            chunk_lens.tolist(), exp_lens)
-    require(chunks.dtype == x.dtype, "output dtype differs from input dtype", str(chunks.dtype), str(x.dtype))
-    require(chunks.shape[0] == N and tuple(chunks.shape[2:]) == tuple(x.shape[2:]) and chunks.shape[1] >= max(exp_lens),
-            "output shape is not (N, T' >= max chunk length, *)", list(chunks.shape), [N, max(exp_lens)] + list(x.shape[2:]))
-    out_np = chunks.numpy()
-    for n in range(N):
-        s, e = slices[n]
-        exp = O.chunk_row(x_np[n, :lens[n]], s, e, mode, value)
-        got = out_np[n, :exp_lens[n]]
-        require(_eq(got, exp), "row %d: chunk differs from pad-then-slice of the single sequence" % n,
-                {"row": n, "got": got, "len": lens[n], "slice": [s, e]}, exp)
+    rows = _rows_to_check(N)
+    expected = {n: O.chunk_row(x_np[n, :lens[n]], slices[n][0], slices[n][1], mode, value) for n in rows}
+    for k, (chunks, chunk_lens) in enumerate(outs):
+        where = "" if k == 0 else " (second call with the same tensors)"
+        require(chunk_lens.tolist() == exp_lens, "reported chunk lengths are not max(end - start, 0)" + where,
+                chunk_lens.tolist(), exp_lens)
+        require(chunks.dtype == x.dtype, "output dtype differs from input dtype" + where, str(chunks.dtype), str(x.dtype))
+        require(chunks.shape[0] == N and tuple(chunks.shape[2:]) == tuple(x.shape[2:]) and chunks.shape[1] >= max(exp_lens),
+                "output shape is not (N, T' >= max chunk length, *)" + where, list(chunks.shape),
+                [N, max(exp_lens)] + list(x.shape[2:]))
+        out_np = chunks.numpy()
+        for n in rows:
+            s, e = slices[n]
+            got = out_np[n, :exp_lens[n]]
+            require(_eq(got, expected[n]), "row %d: chunk differs from pad-then-slice of the single sequence%s" % (n, where),
+                    {"row": n, "got": _show(got, expected[n]), "len": lens[n], "slice": [s, e]}, _show(expected[n], got))
     nontrivial = "lens_extremes" in classes
+    if case.get("spike") is not None:
+        classes.append("one_row_longest")
     for n in range(N):
         s, e = slices[n]
         l, r = needs[n]
@@ -314,6 +633,11 @@ def _chunk_check(case):
         if l > T or r > T:
             classes.append("pad_gt_T")
             nontrivial = True
+        mp = L.thresh_label(max(l, r))
+        if mp:
+            classes.append("pad_at_" + mp)
+        if max(l, r) >= 1023:
+            classes.append("pad_ge_1023")
         if s >= lens[n]:
             classes.append("wholly_right")
             if mode == "reflect":
@@ -335,9 +659,15 @@ def _chunk_check(case):
 subcheck("C09", "chunk_by_slices", _chunk_strategy, 2500, 60000,
          doc="generated (x, lens|None, slices, mode, value): chunk == numpy.pad(seq[:len], needed pads)[start+l:end+l], "
              "lengths == max(end-start, 0); negative starts, ends beyond the length, slices wholly in either padding, "
-             "empty and inverted slices",
+             "empty and inverted slices; also under non-contiguous / offset / expanded layouts of x, lens, slices, garbage "
+             "behind the lengths, float64 / int32 data, a second call with the same tensors, a module object used before, "
+             "lens a view of slices[:, 1]",
          required_classes=["pad_gt_T", "reflect_wholly_right", "reflect_right_offset", "wholly_left", "empty_slice",
-                           "inverted_slice", "lens_extremes", "lens_omitted", "documented_exception"]
+                           "inverted_slice", "lens_extremes", "lens_omitted", "documented_exception",
+                           "x_transposed", "x_inner", "x_offset", "x_strided", "x_last_strided", "x_expanded",
+                           "lens_strided", "lens_offset", "aux_transposed", "aux_inner", "aux_last_strided",
+                           "garbage_nan", "garbage_inf", "garbage_huge", "dtype_float64", "dtype_int32",
+                           "pattern_twice", "pattern_reuse", "lens_is_view_of_slices"]
          )(_chunk_check)
 
 
@@ -372,6 +702,48 @@ subcheck("C09", "chunk_by_slices_enum", _chunk_enum, 0, 0, exhaustive=True,
          )(_chunk_check)
 
 
+@st.composite
+def _chunk_large_cases(draw, tier):
+    c = draw(_large_common(tier))
+    c.update(mode=draw(st.sampled_from(MODES)), give_lens=draw(st.sampled_from([True, True, True, False])),
+             slice_kind=draw(st.sampled_from(["mixed", "mixed", "extreme", "right", "cover", "any"])),
+             far=draw(st.sampled_from([0, 0, 0] + _groups(tier))), entry=draw(st.sampled_from(["fn", "module"])),
+             pattern=draw(st.sampled_from(PATTERNS)), spike=draw(st.sampled_from([None, None, 0, 1, 2, 3, 4])))
+    if c["far"]:
+        c["far"] += draw(st.sampled_from([-1, 0, 1]))
+    return _with_dim_size(c, tier)
+
+
+def _chunk_large_expand(c):
+    N, T, trail = _expand_dims(c)
+    mode = c["mode"]
+    lens = _expand_lens(c["lens_kind"], N, T, 0 if mode == "constant" else 1, c["seed"]) if c["give_lens"] else [T] * N
+    # slices reaching a threshold distance beyond the sequence only where the other dimensions are small
+    far = c["far"] if (N * _prod(trail) <= 600 and mode != "reflect") else 0
+    slices = []
+    spike = None if c.get("spike") is None else _spike_row(c["spike"], N)
+    if spike is not None and mode == "reflect":
+        lens[spike] = T
+    for n in range(N):
+        src = _Det(c["seed"], 4, n)
+        kind = src.choice(SLICE_KINDS + ["extreme", "to_end"]) if c["slice_kind"] == "mixed" else c["slice_kind"]
+        if spike is not None:
+            # one row alone has the longest chunk (the widest legal slice); every other row stays inside its sequence
+            kind = "extreme" if n == spike else "inside"
+        slices.append(_slice_for(src, kind, mode, lens[n], T, True, far))
+    return dict(c, N=N, T=T, trail=trail, lens=lens, slices=slices, value=_det_value(_Det(c["seed"], 3), c["dtype"]))
+
+
+@subcheck("C09", "chunk_by_slices_large", lambda tier: _chunk_large_cases(tier), 300, 5000,
+          doc="chunk_by_slices with one of T / N / F at 15..17, ..., 1023..1025, 2049 (thorough: also 4095..4097), slices of every "
+              "kind incl. the widest legal one and slices reaching a threshold distance into the padding; lens and slices are "
+              "expanded from (seed, row) by a pure integer hash; same pad-then-slice oracle (N > 700: 600 edge rows + every 7th)",
+          required_classes=["T_at_16", "T_at_1024", "T_at_2049", "N_at_16", "N_at_1024", "N_at_2049", "F_at_1024",
+                            "pad_ge_1023", "reflect_wholly_right", "reflect_right_offset", "lens_omitted", "one_row_longest"])
+def _chunk_large_check(case):
+    return _chunk_check(_chunk_large_expand(case))
+
+
 # ------------------------------------------------------------------ pad_masked_sequence
 
 
@@ -380,67 +752,177 @@ def _masked_cases(draw, tier):
     big = tier == "thorough"
     N = draw(st.integers(1, 4 if not big else 6))
     T = draw(st.integers(1, 8 if not big else 14))
-    kind = draw(st.sampled_from(["mixed", "mixed", "mixed", "all", "none"]))
+    kind = draw(st.sampled_from(["mixed", "mixed", "mixed", "all", "none", "same_rows"]))
+    if kind == "same_rows":
+        N = max(N, 2)
     if kind == "all":
         mask = [[1] * T for _ in range(N)]
     elif kind == "none":
         mask = [[0] * T for _ in range(N)]
+    elif kind == "same_rows":
+        row = [draw(st.integers(0, 1)) for _ in range(T)]
+        mask = [list(row) for _ in range(N)]
     else:
         mask = [[draw(st.integers(0, 1)) for _ in range(T)] for _ in range(N)]
-    dtype = draw(st.sampled_from(["float32", "float32", "int64"]))
-    return {"N": N, "T": T, "trail": draw(st.lists(st.integers(1, 3), min_size=0, max_size=2)), "dtype": dtype,
-            "mask": mask, "batch_first": draw(st.booleans()), "value": _value(draw, dtype),
-            "entry": draw(st.sampled_from(["fn", "module"])), "base": draw(st.sampled_from([1, 100, -7]))}
+    dtype = draw(st.sampled_from(DTYPES))
+    c = {"N": N, "T": T, "trail": draw(st.lists(st.integers(1, 3), min_size=0, max_size=2)), "dtype": dtype,
+         "mask": mask, "batch_first": draw(st.booleans()), "value": _value(draw, dtype),
+         "entry": draw(st.sampled_from(["fn", "module"])),
+         "base": draw(st.sampled_from([1, 100, -7] + ([BIG_BASE] if dtype == "int64" else [])))}
+    if not draw(st.sampled_from([True, False, False, False])):
+        c["lay"] = {"x": draw(st.sampled_from(X_LAYS[:-1])),
+                    "aux": draw(st.sampled_from(["expanded"] if kind == "same_rows" else A_LAYS))}
+        c["garbage"] = draw(st.sampled_from(GARBAGE))
+        c["pattern"] = draw(st.sampled_from(PATTERNS))
+    return c
 
 
 def _masked_strategy(tier):
     return _masked_cases(tier)
 
 
-@subcheck("C09", "pad_masked_sequence", _masked_strategy, 800, 20000,
-          doc="generated (x, boolean mask, batch_first, padding value): per row the selected elements in order, then the "
-              "padding value everywhere else; lens == count",
-          required_classes=["compacts", "batch_first", "seq_first", "mask_none", "mask_all"])
 def _masked_check(case):
     import torch
 
     F, M = _lib()
-    x_np, x = _tensors(case)  # (N, T, *)
-    N, T, value, bf = case["N"], case["T"], case["value"], case["batch_first"]
+    N, T, value, bf = case["N"], case["T"], _val(case), case["batch_first"]
     mask = case["mask"]
+    x_np, x, classes = _tensors(dict(case, lay=None))  # (N, T, *), clean, own storage
+    kind = case.get("garbage")
+    if kind not in (None, "none"):
+        # garbage at the positions the mask leaves out ("the selected elements ... the remaining values being padding_value")
+        vals = L.garbage_values(case["dtype"])[kind]
+        k = 0
+        for n in range(N):
+            for t in range(T):
+                if not mask[n][t]:
+                    x[n, t] = vals[k % len(vals)]
+                    k += 1
+        if k:
+            classes += ["garbage_masked_out", "garbage_" + kind]
+    lay = case.get("lay") or {}
     mask_t = torch.tensor(mask, dtype=torch.bool).view(N, T)
-    x_in, m_in = (x, mask_t) if bf else (x.transpose(0, 1), mask_t.transpose(0, 1))
-    if case["entry"] == "module":
-        out, lens = M.PadMaskedSequence(bf, float(value))(x_in, m_in)
+    # the library is handed the axis order batch_first asks for; the requested memory layout is applied to that tensor
+    # (without a requested layout the sequence-first form is the transposed view of the batch-first tensor)
+    if bf:
+        x_in, m_in = L.lay(x, lay.get("x")), L.lay(mask_t, lay.get("aux"))
     else:
-        out, lens = F.pad_masked_sequence(x_in, m_in, bf, float(value))
-    require(tuple(out.shape) == tuple(x_in.shape), "output shape differs from input shape", list(out.shape), list(x_in.shape))
-    require(out.dtype == x.dtype, "output dtype differs from input dtype", str(out.dtype), str(x.dtype))
-    out_np = (out if bf else out.transpose(0, 1)).numpy()
-    exp_lens = []
+        x_in = L.lay(x.transpose(0, 1).contiguous(), lay.get("x")) if lay.get("x") else x.transpose(0, 1)
+        m_in = L.lay(mask_t.t().contiguous(), lay.get("aux")) if lay.get("aux") else mask_t.transpose(0, 1)
+    for role, t in (("x", x_in), ("aux", m_in)):
+        c = L.layout_class(role, t, lay.get(role))
+        if c:
+            classes.append(c)
+    if case["entry"] == "module":
+        m = M.PadMaskedSequence(bf, value)
+        call = lambda a, b: m(a, b)  # noqa: E731
+    else:
+        call = lambda a, b: F.pad_masked_sequence(a, b, bf, value)  # noqa: E731
+    pattern = case.get("pattern")
+    if pattern == "reuse":
+        call(x_in.flip(0), m_in.flip(0))
+    outs = [call(x_in, m_in)]
+    if pattern == "twice":
+        outs.append(call(x_in, m_in))
+    if pattern:
+        classes.append("pattern_" + pattern)
+    exp_rows, exp_lens = [], []
     compacts = False
     for n in range(N):
         exp, cnt = O.compact_row(x_np[n], mask[n], value)
+        exp_rows.append(exp)
         exp_lens.append(cnt)
-        require(_eq(out_np[n], exp), "row %d: not (selected elements in order, then the padding value)" % n,
-                {"row": n, "got": out_np[n], "mask": mask[n]}, exp)
         seen0 = False
         for v in mask[n]:
             if not v:
                 seen0 = True
             elif seen0:
                 compacts = True
-    require(tuple(lens.shape) == (N,) and lens.tolist() == exp_lens, "lens is not the number of selected elements",
-            lens.tolist(), exp_lens)
-    classes = ["batch_first" if bf else "seq_first", "dtype_" + case["dtype"]]
+    for k, (out, lens) in enumerate(outs):
+        where = "" if k == 0 else " (second call with the same tensors)"
+        require(tuple(out.shape) == tuple(x_in.shape), "output shape differs from input shape" + where, list(out.shape), list(x_in.shape))
+        require(out.dtype == x.dtype, "output dtype differs from input dtype" + where, str(out.dtype), str(x.dtype))
+        out_np = (out if bf else out.transpose(0, 1)).numpy()
+        for n in range(N):
+            require(_eq(out_np[n], exp_rows[n]), "row %d: not (selected elements in order, then the padding value)%s" % (n, where),
+                    {"row": n, "got": _show(out_np[n], exp_rows[n]), "mask": mask[n] if T <= 64 else "(%d entries)" % T},
+                    _show(exp_rows[n], out_np[n]))
+        require(tuple(lens.shape) == (N,) and lens.tolist() == exp_lens, "lens is not the number of selected elements" + where,
+                lens.tolist(), exp_lens)
+    classes += ["batch_first" if bf else "seq_first", "dtype_" + case["dtype"]] + _size_classes(case)
     tot = sum(sum(r) for r in mask)
+    if any(sum(r) == T for r in mask):
+        classes.append("row_all_selected")
     if tot == 0:
         classes.append("mask_none")
     if tot == N * T:
         classes.append("mask_all")
     if compacts:
         classes.append("compacts")
-    return Info(compacts and N >= 2, classes)
+    return Info(compacts and N >= 2, sorted(set(classes)))
+
+
+subcheck("C09", "pad_masked_sequence", _masked_strategy, 800, 20000,
+         doc="generated (x, boolean mask, batch_first, padding value): per row the selected elements in order, then the "
+             "padding value everywhere else; lens == count; also with garbage (NaN / inf / huge) at the masked-out positions, "
+             "non-contiguous / offset layouts of x and mask, a mask expanded (stride 0) over the batch, float64 / int32 data, "
+             "repeated calls",
+         required_classes=["compacts", "batch_first", "seq_first", "mask_none", "mask_all", "garbage_masked_out", "garbage_nan",
+                           "x_transposed", "x_inner", "x_offset", "aux_transposed", "aux_inner", "aux_expanded",
+                           "dtype_float64", "dtype_int32", "pattern_twice", "pattern_reuse"])(_masked_check)
+
+
+@st.composite
+def _masked_large_cases(draw, tier):
+    c = draw(_large_common(tier))
+    c.update(mask_kind=draw(st.sampled_from(["mixed", "mixed", "sparse", "dense", "block", "all", "none", "last_only"])),
+             batch_first=draw(st.booleans()), entry=draw(st.sampled_from(["fn", "module"])),
+             pattern=draw(st.sampled_from(PATTERNS)))
+    return _with_dim_size(c, tier)
+
+
+def _masked_large_expand(c):
+    N, T, trail = _expand_dims(c)
+    kind, seed = c["mask_kind"], c["seed"]
+    mask = []
+    for n in range(N):
+        if kind == "all":
+            row = [1] * T
+        elif kind == "none":
+            row = [0] * T
+        elif kind == "last_only":
+            row = [0] * (T - 1) + [1]
+        elif kind == "block":
+            a = L.pick(0, T, seed, 6, n)
+            b = L.pick(a, T, seed, 7, n)
+            row = [1 if a <= t < b else 0 for t in range(T)]
+        else:
+            mod = {"mixed": 2, "sparse": 8, "dense": 8}[kind]
+            row = [int((L.mix(seed, 8, n, t) % mod == 0) != (kind == "dense")) for t in range(T)]
+        if kind not in ("all", "none"):
+            # single rows that are full, or full but for one end: the row's count reaches T or T - 1
+            v = L.pick(0, 9, seed, 10, n)
+            if v == 0:
+                row = [1] * T
+            elif v == 1:
+                row = [1] * (T - 1) + [0]
+            elif v == 2:
+                row = [0] + [1] * (T - 1)
+        mask.append(row)
+    lay = c.get("lay")
+    if lay:
+        lay = {"x": lay["x"], "aux": lay["aux"]}
+    return dict(c, N=N, T=T, trail=trail, mask=mask, lay=lay, value=_det_value(_Det(seed, 3), c["dtype"]))
+
+
+@subcheck("C09", "pad_masked_sequence_large", lambda tier: _masked_large_cases(tier), 250, 4000,
+          doc="pad_masked_sequence with one of T / N / F at 15..17, ..., 1023..1025, 2049 (thorough: also 4095..4097); the mask "
+              "(mixed / sparse / dense / one block / only the last position / all / none) is expanded from (seed, row, position) "
+              "by a pure integer hash; loop-compaction oracle on every row",
+          required_classes=["T_at_16", "T_at_1024", "T_at_2049", "N_at_1024", "N_at_2049", "F_at_1024", "compacts",
+                            "row_all_selected"])
+def _masked_large_check(case):
+    return _masked_check(_masked_large_expand(case))
 
 
 # ------------------------------------------------------------------ RandomShift
@@ -448,6 +930,7 @@ def _masked_check(case):
 PROPS = ["0", "0.25", "0.3", "0.5", "0.75", "1", "2.5"]
 TWO24 = 1 << 24
 BOUNDARY_DRAWS = [0, 1, TWO24 // 2, TWO24 - 1]
+HISTORIES = [None, None, None, ["train"], ["eval"], ["train", "eval"], ["eval", "train", "eval"]]
 
 
 @st.composite
@@ -467,6 +950,9 @@ def _shift_cases(draw, tier):
     b.update(mode=mode, prop=[pl, pr], scalar_prop=same and draw(st.booleans()), value=_value(draw, b["dtype"]),
              seed=draw(st.integers(0, 2 ** 31 - 1)), draws=draws,
              training=draw(st.sampled_from([True] * 7 + [False])))
+    b.update(draw(_extras()))
+    b.pop("pattern", None)
+    b["history"] = draw(st.sampled_from(HISTORIES))
     return b
 
 
@@ -474,27 +960,38 @@ def _shift_strategy(tier):
     return _shift_cases(tier)
 
 
-@subcheck("C09", "random_shift", _shift_strategy, 1500, 40000,
-          doc="RandomShift under a generated torch seed or injected uniform draws (k/2^24 incl. 0 and 1-2^-24): there are whole "
-              "l, r >= 0 with l <= p_left*len, r <= p_right*len, out_len = len+l+r and out[:out_len] == numpy.pad(seq, (l, r), mode); "
-              "evaluation mode returns its inputs",
-          required_classes=["injected_draws", "seeded", "eval", "shifted", "draw_at_upper_boundary", "prop_gt_1"])
 def _shift_check(case):
     import torch
 
     F, M = _lib()
-    x_np, x = _tensors(case)
-    N, T, mode, value, lens = case["N"], case["T"], case["mode"], case["value"], case["lens"]
-    lens_t = torch.tensor(lens, dtype=torch.long)
+    N, T, mode, value, lens = case["N"], case["T"], case["mode"], _val(case), case["lens"]
+    x_np, x, classes = _tensors(case, lens)
+    lens_t = _index_tensor(lens, (N,), case, "lens", classes)
     pl, pr = (Fraction(p) for p in case["prop"])
     prop_arg = float(pl) if case["scalar_prop"] else (float(pl), float(pr))
-    layer = M.RandomShift(prop_arg, mode, float(value))
-    classes = ["mode_" + mode] + _lens_classes(lens, T)
-    if not case["training"]:
+    layer = M.RandomShift(prop_arg, mode, value)
+    classes += ["mode_" + mode, "dtype_" + case["dtype"]] + _lens_classes(lens, T) + _size_classes(case)
+
+    def eval_call(where):
         layer.eval()
         out, out_lens = layer(x, lens_t)
-        require(tuple(out.shape) == tuple(x.shape) and bool(torch.equal(out, x)), "evaluation mode changed the input", out, x)
-        require(out_lens.tolist() == lens, "evaluation mode changed the lengths", out_lens.tolist(), lens)
+        require(_same(out, x), "evaluation mode changed the input" + where, _show(out.numpy()), _show(x.numpy()))
+        require(out_lens.tolist() == lens, "evaluation mode changed the lengths" + where, out_lens.tolist(), lens)
+
+    # the same layer object used before the judged call: train / eval calls on the same tensors
+    for k, op in enumerate(case.get("history") or []):
+        if op == "eval":
+            eval_call(" (call %d on the same layer object)" % k)
+        else:
+            layer.train()
+            torch.manual_seed(case["seed"] + 1 + k)
+            layer(x, lens_t)
+    if case.get("history"):
+        classes.append("layer_used_before")
+        if "train" in case["history"]:
+            classes.append("trained_before")
+    if not case["training"]:
+        eval_call("")
         return Info(False, classes + ["eval"])
     layer.train()
     if case["draws"] is not None:
@@ -516,31 +1013,78 @@ def _shift_check(case):
             "output shape is not (N, T' >= max out_len, *)", list(out.shape), [N, max(out_lens)] + list(x.shape[2:]))
     out_np = out.numpy()
     shifted = False
+    rows = set(_rows_to_check(N))
     for n in range(N):
-        L = lens[n]
-        total = out_lens[n] - L
-        bl, br = (pl * L).__floor__(), (pr * L).__floor__()
+        Ln = lens[n]
+        total = out_lens[n] - Ln
+        bl, br = (pl * Ln).__floor__(), (pr * Ln).__floor__()
         require(0 <= total <= bl + br, "row %d: output length outside [len, len + floor(p_l*len) + floor(p_r*len)]" % n,
-                out_lens[n], [L, L + bl + br])
-        seq = x_np[n, :L]
+                out_lens[n], [Ln, Ln + bl + br])
+        shifted = shifted or total > 0
+        if n not in rows:
+            continue
+        seq = x_np[n, :Ln]
         got = out_np[n, :out_lens[n]]
         ok = False
-        for l in range(0, min(bl, total) + 1):
+        for l in range(max(0, total - br), min(bl, total) + 1):
             r = total - l
-            if r > br:
+            if mode == "reflect" and (l >= Ln or r >= Ln) and (l or r):
                 continue
-            if mode == "reflect" and (l >= L or r >= L) and (l or r):
-                continue
+            if Ln and not _eq(got[l], seq[0]):
+                continue  # the sequence is not embedded at offset l (cheap necessary condition)
             if _eq(got, O.pad_row(seq, l, r, mode, value)):
                 ok = True
                 break
         require(ok, "row %d: output is not the sequence embedded between l <= p_l*len and r <= p_r*len %s-padded elements" % (n, mode),
-                {"row": n, "got": got, "len": L, "out_len": out_lens[n]}, {"seq": seq, "max_left": bl, "max_right": br})
-        shifted = shifted or total > 0
+                {"row": n, "got": _show(got), "len": Ln, "out_len": out_lens[n]}, {"seq": _show(seq), "max_left": bl, "max_right": br})
     if shifted:
         classes.append("shifted")
     if pl > 1 or pr > 1:
         classes.append("prop_gt_1")
     if any(o > T for o in out_lens):
         classes.append("grew_beyond_T")
-    return Info(shifted, classes)
+    return Info(shifted, sorted(set(classes)))
+
+
+subcheck("C09", "random_shift", _shift_strategy, 1500, 40000,
+         doc="RandomShift under a generated torch seed or injected uniform draws (k/2^24 incl. 0 and 1-2^-24): there are whole "
+             "l, r >= 0 with l <= p_left*len, r <= p_right*len, out_len = len+l+r and out[:out_len] == numpy.pad(seq, (l, r), mode); "
+             "evaluation mode returns its inputs; also after train / eval calls on the same layer object, under non-contiguous / "
+             "offset layouts, garbage behind the lengths, float64 / int32 data",
+         required_classes=["injected_draws", "seeded", "eval", "shifted", "draw_at_upper_boundary", "prop_gt_1",
+                           "layer_used_before", "trained_before", "x_transposed", "x_inner", "x_offset", "lens_strided",
+                           "garbage_nan", "garbage_inf", "dtype_float64", "dtype_int32"])(_shift_check)
+
+
+@st.composite
+def _shift_large_cases(draw, tier):
+    c = draw(_large_common(tier))
+    mode = draw(st.sampled_from(MODES))
+    props = [p for p in PROPS if not (mode == "reflect" and Fraction(p) > 1)]
+    same = draw(st.booleans())
+    pl = draw(st.sampled_from(props))
+    pr = pl if same else draw(st.sampled_from(props))
+    c.update(mode=mode, prop=[pl, pr], scalar_prop=same and draw(st.booleans()),
+             inject=draw(st.sampled_from(["boundary", "hash", None])), history=draw(st.sampled_from(HISTORIES)),
+             training=draw(st.sampled_from([True] * 7 + [False])))
+    return _with_dim_size(c, tier, dims=("T", "N"))
+
+
+def _shift_large_expand(c):
+    N, T, trail = _expand_dims(c)
+    lens = _expand_lens(c["lens_kind"], N, T, 0 if c["mode"] == "constant" else 1, c["seed"])
+    draws = None
+    if c["inject"] == "boundary":
+        draws = [BOUNDARY_DRAWS[L.pick(0, 3, c["seed"], 9, k)] for k in range(2 * N)]
+    elif c["inject"] == "hash":
+        draws = [L.pick(0, TWO24 - 1, c["seed"], 9, k) for k in range(2 * N)]
+    return dict(c, N=N, T=T, trail=trail, lens=lens, draws=draws, value=_det_value(_Det(c["seed"], 3), c["dtype"]))
+
+
+@subcheck("C09", "random_shift_large", lambda tier: _shift_large_cases(tier), 250, 4000,
+          doc="RandomShift with T or N at 15..17, ..., 1023..1025, 2049 (thorough: also 4095..4097); lens and injected draws are expanded "
+              "from (seed, row) by a pure integer hash; same existential oracle (N > 700: lengths of every row, contents of 600 "
+              "edge rows + every 7th)",
+          required_classes=["T_at_16", "T_at_1024", "T_at_2049", "N_at_1024", "N_at_2049", "shifted", "injected_draws", "seeded"])
+def _shift_large_check(case):
+    return _shift_check(_shift_large_expand(case))
